@@ -1518,8 +1518,93 @@ class Interp:
 
     # -- statements ------------------------------------------------------------------
     def exec_block(self, stmts, fr):
+        blocks = self.abstract_blocks(stmts, fr)
+        skip_until = None
         for s in stmts:
+            if skip_until is not None:
+                if s is skip_until:
+                    skip_until = None
+                continue
+            b = blocks.get(id(s))
+            if b is not None:
+                self.abstract_block(b, fr)
+                if b["last"] is not s:
+                    skip_until = b["last"]
+                continue
             self.exec_stmt(s, fr)
+
+    def abstract_blocks(self, stmts, fr):
+        """statement ranges of the function body that the (two-run) contract abstracts: {id(first stmt): block}.  A block
+        is named by the variables its first and last statements assign, so it survives line shifts."""
+        rl = getattr(self.ctx.reg, "rel_blocks", None)
+        if not rl or fr.fi is None or fr.fi.qualname not in rl or stmts is not fr.fi.node.body:
+            return {}
+        out = {}
+        for spec in rl[fr.fi.qualname]:
+            first = last = None
+            for st in stmts:
+                names = self.assigned_names([st]) if not isinstance(st, ast.FunctionDef) else {st.name}
+                if first is None and spec["from"] in names:
+                    first = st
+                if first is not None and spec["to"] in names:
+                    last = st
+                    break
+            if first is None or last is None:
+                raise Unsupported("abstracted block %s..%s not found in %s" % (spec["from"], spec["to"], fr.fi.qualname))
+            i0, i1 = stmts.index(first), stmts.index(last)
+            out[id(first)] = dict(spec, first=first, last=last, stmts=stmts[i0:i1 + 1])
+        return out
+
+    def abstract_block(self, b, fr):
+        """replace a straight run of statements by the havoc of the variables it assigns (its effect on objects it might
+        mutate is NOT modelled: only blocks that build fresh local values may be abstracted); in two-run mode the block
+        must not read the varied data, and both runs then see the same values"""
+        run = self.run
+        names = set()
+        for st in b["stmts"]:
+            names |= {st.name} if isinstance(st, ast.FunctionDef) else self.assigned_names([st])
+            todo = [st] if not isinstance(st, ast.FunctionDef) else []
+            while todo:
+                n = todo.pop()
+                if isinstance(n, (ast.Return, ast.Raise, ast.Break, ast.Continue)):
+                    raise Unsupported("abstracted block contains control transfer", st)
+                todo.extend(c for c in ast.iter_child_nodes(n) if not isinstance(c, (ast.FunctionDef, ast.Lambda)))
+            for n in ast.walk(st):
+                if isinstance(n, (ast.Attribute, ast.Subscript)) and isinstance(n.ctx, ast.Store):
+                    raise Unsupported("abstracted block writes to an object", st)
+        rel = getattr(run, "rel_share", None)
+        key = (fr.fi.qualname, "block", b["from"], b["to"])
+        if rel is not None:
+            from .taint import Taint
+            t = Taint(fr.fi.node, rel["vary_params"], rel["vary_fields"])
+            for st in b["stmts"]:
+                for n in ast.walk(st):
+                    if isinstance(n, ast.expr) and t.expr_tainted(n):
+                        raise Unsupported("abstracted block declared independent of the varied data, but line %d reads it"
+                                          % getattr(n, "lineno", st.lineno), st)
+        if rel is not None and rel["side"] == 1 and key in rel["store"]:
+            for nm, v0 in rel["store"][key].items():
+                fr.env[nm] = v0
+        else:
+            types = b.get("types", {})
+            vals = {}
+            for nm in sorted(names):
+                if nm in types:
+                    vals[nm] = self.ctx.reg.make_symbolic(self, types[nm], "block!%s" % nm)
+                else:
+                    vals[nm] = SOpaque("AnyVal", run.fresh(self.ctx.sort("AnyVal"), "block!%s" % nm))
+                fr.env[nm] = vals[nm]
+            if rel is not None:
+                for v0 in vals.values():
+                    if isinstance(v0, Ref):
+                        raise Unsupported("abstracted block result on the heap")
+                rel["store"][key] = vals
+        run.assumed.append("abstracted statements of %s (from the assignment of %s to that of %s, lines %d-%d): not verified, "
+                           "the variables they assign are arbitrary afterwards%s" % (
+                               fr.fi.qualname, b["from"], b["to"], b["first"].lineno, getattr(b["last"], "end_lineno", b["last"].lineno),
+                               "; two-run mode: they read nothing that depends on the varied data (checked: syntactic dependency "
+                               "analysis), so both runs see the same values - library calls are deterministic under one random "
+                               "seed schedule (assumed)" if rel is not None else ""))
 
     def exec_stmt(self, s, fr):
         m = getattr(self, "s_" + type(s).__name__, None)
@@ -1797,6 +1882,27 @@ class Interp:
             gk = tuple(gk)
             if gk in run.ghost:
                 run.ghost[gk] = run.fresh(run.ghost[gk].sort(), "loop!ghost!%s" % gk[1])
+        # 2b. two-run mode: a loop that provably does not read the varied data leaves both runs in the same state
+        rel = getattr(run, "rel_share", None)
+        if rel is not None and spec.get("independent"):
+            from .taint import Taint
+            why = Taint(fr.fi.node, rel["vary_params"], rel["vary_fields"]).loop_independent(s)
+            if why is not None:
+                raise Unsupported("loop declared independent of the varied data, but %s" % why, s)
+            key = (fr.fi.qualname, ordn)
+            if rel["side"] == 0:
+                rel["store"][key] = {nm: fr.env.get(nm) for nm in names}
+            elif key in rel["store"]:
+                for nm, v0 in rel["store"][key].items():
+                    if isinstance(v0, Ref):
+                        o0 = run.obj(v0)
+                        if not hasattr(o0, "clone"):
+                            raise Unsupported("shared loop state of type %s" % type(o0).__name__, s)
+                        v0 = run.alloc(o0.clone())
+                    fr.env[nm] = v0
+            run.assumed.append("two-run: loop %s reads nothing that depends on the varied data (checked: syntactic dependency "
+                               "analysis), so both runs leave it in the same state - library calls are deterministic under one "
+                               "random seed schedule (assumed)" % lname)
         # 3. assume invariant
         if implicit_inv is not None:
             run.assume(zbool(implicit_inv()))
@@ -1806,6 +1912,16 @@ class Interp:
             reg.use_lemma(self, use, fr)
         # 4. guard
         c = guard()
+        if spec.get("abstract"):
+            # the body is not executed: the loop is replaced by the havoc of its targets (no invariant can be claimed,
+            # exceptions raised inside the body are not considered) - recorded as an assumption of the report
+            if invs:
+                raise Unsupported("an abstracted loop cannot carry invariants", s)
+            run.assumed.append("abstracted loop %s: its body is not verified, the variables it assigns are arbitrary "
+                               "afterwards, exceptions raised inside it are not considered" % lname)
+            run.assume(NOT(zbool(c)))
+            self.exec_block(s.orelse, fr)
+            return
         if run.branch(c, "loop@%d" % s.lineno):
             try:
                 if pre_body is not None:
